@@ -23,6 +23,7 @@ import (
 	"strconv"
 	"strings"
 	"sync"
+	"time"
 	"unicode"
 	"unicode/utf8"
 
@@ -497,6 +498,26 @@ func c15SetNonZero(v reflect.Value, n int, depth int) bool {
 	if depth > 4 {
 		return false
 	}
+	switch v.Type() {
+	case reflect.TypeFor[time.Time]():
+		if v.CanSet() {
+			v.Set(reflect.ValueOf(time.Unix(int64(1700000000+n), 0).UTC()))
+			return true
+		}
+		return false
+	case reflect.TypeFor[C15ZStruct](): // never A == B, which would be IsZero
+		if v.CanSet() {
+			v.Set(reflect.ValueOf(C15ZStruct{n%100 + 1, n%100 + 2}))
+			return true
+		}
+		return false
+	case reflect.TypeFor[C15ZPtrRecv]():
+		if v.CanSet() {
+			v.Set(reflect.ValueOf(C15ZPtrRecv{n%100 + 10}))
+			return true
+		}
+		return false
+	}
 	if v.Type() == c15ValueType {
 		if v.CanSet() {
 			v.SetBytes([]byte(`{"q":` + strconv.Itoa(n%100+1) + `}`))
@@ -630,7 +651,8 @@ var (
 	c15JSONNames = []string{"a", "A", "b", "B", "ab", "Ab", "AB", "a_b", "a-b", "A_B", "x", "X", "name", "Name", "NAME", "na_me", "na-me",
 		"k", "K", "\u212a", "s", "S", "\u017f", "é", "É", "id", "ID", "i_d", "_", "__", "a b", "0", "ß", "\u1e9e", "µ", "\u039c", "å", "\u212b", "中"}
 	c15LeafTypes = []reflect.Type{reflect.TypeFor[int](), reflect.TypeFor[int](), reflect.TypeFor[int](), reflect.TypeFor[int](), reflect.TypeFor[string](), reflect.TypeFor[bool](),
-		reflect.TypeFor[[]int](), reflect.TypeFor[map[string]int](), reflect.TypeFor[*int](), reflect.TypeFor[any](), reflect.TypeFor[float64](), reflect.TypeFor[struct{ Z int }](), reflect.TypeFor[int64]()}
+		reflect.TypeFor[[]int](), reflect.TypeFor[map[string]int](), reflect.TypeFor[*int](), reflect.TypeFor[any](), reflect.TypeFor[float64](), reflect.TypeFor[struct{ Z int }](), reflect.TypeFor[int64](),
+		reflect.TypeFor[C15ZNeg](), reflect.TypeFor[time.Time](), reflect.TypeFor[*C15ZNeg](), reflect.TypeFor[C15ZStruct](), reflect.TypeFor[C15ZPtrRecv]()}
 	c15FbTypes = []reflect.Type{reflect.TypeFor[jsontext.Value](), reflect.TypeFor[map[string]int](), reflect.TypeFor[map[string]any](), reflect.TypeFor[*jsontext.Value]()}
 )
 
@@ -1618,6 +1640,179 @@ func c15CheckLookup(c *Ctx, rng *rand.Rand, cs *c15Case, names []string, oa []st
 	c.Sample(map[string]any{"type": trunc(cs.t.String(), 300), "winners": len(rule.Winners), "candidates": len(rule.All), "names": len(names)})
 }
 
+var c15IsZeroIfaceT = reflect.TypeFor[interface{ IsZero() bool }]()
+
+// c15DocZero: "zero as determined by the IsZero() bool method if present, otherwise based on whether the field
+// is the zero Go value" (doc.go omitzero, options.go OmitZeroStructFields).  The method is looked for on the
+// field's type and on its pointer (a field is addressable); a nil pointer, a nil interface and an interface
+// holding a nil pointer have no receiver to ask and are zero.
+func c15DocZero(f reflect.Value) bool {
+	t := f.Type()
+	onT, onPtr := t.Implements(c15IsZeroIfaceT), reflect.PointerTo(t).Implements(c15IsZeroIfaceT)
+	if !onT && !onPtr {
+		return f.IsZero()
+	}
+	switch f.Kind() {
+	case reflect.Interface:
+		if f.IsNil() || (f.Elem().Kind() == reflect.Pointer && f.Elem().IsNil()) {
+			return true
+		}
+	case reflect.Pointer:
+		if f.IsNil() {
+			return true
+		}
+	}
+	if onT {
+		return f.Interface().(interface{ IsZero() bool }).IsZero()
+	}
+	a := reflect.New(t)
+	a.Elem().Set(f)
+	return a.Interface().(interface{ IsZero() bool }).IsZero()
+}
+
+// c15ZeroKind mirrors the type switch of fields.go:219-236 for the model's `omitz` op.
+func c15ZeroKind(t reflect.Type) string {
+	switch {
+	case t.Kind() == reflect.Interface && t.Implements(c15IsZeroIfaceT):
+		return "i"
+	case t.Kind() == reflect.Pointer && t.Implements(c15IsZeroIfaceT):
+		return "p"
+	case t.Implements(c15IsZeroIfaceT):
+		return "v"
+	case reflect.PointerTo(t).Implements(c15IsZeroIfaceT):
+		return "a"
+	}
+	return "n"
+}
+
+func c15LegacyEmpty(f reflect.Value) bool {
+	switch f.Kind() {
+	case reflect.Bool, reflect.Int, reflect.Int8, reflect.Int16, reflect.Int32, reflect.Int64, reflect.Uint, reflect.Uint8, reflect.Uint16, reflect.Uint32, reflect.Uint64,
+		reflect.Float32, reflect.Float64, reflect.Pointer, reflect.Interface:
+		return f.IsZero()
+	case reflect.String, reflect.Map, reflect.Slice, reflect.Array:
+		return f.Len() == 0
+	}
+	return false
+}
+
+// c15ZeroGrid: {no tag, omitzero, omitempty, both} x {OmitZeroStructFields} x {OmitEmptyWithLegacySemantics} x values on
+// which IsZero and the zero Go value disagree (both directions), nil pointers/interfaces, passed by pointer and by value.
+func c15ZeroGrid(c *Ctx, or *Oracle, rng *rand.Rand) {
+	table := c15ZeroGridValues()
+	rounds := c.N(40, 400)
+	for ti, t := range c15ZeroGridTypes {
+		for fl := 0; fl < 4; fl++ {
+			ozf, legacy := fl&1 != 0, fl&2 != 0
+			opts := []json.Options{json.OmitZeroStructFields(ozf), jsonv1.OmitEmptyWithLegacySemantics(legacy)}
+			for k := 0; k < rounds; k++ {
+				v := reflect.New(t).Elem()
+				var want, lines, names []string
+				var modelVals []int
+				desc := fmt.Sprintf("%s ozf=%v legacy=%v:", t.Name(), ozf, legacy)
+				for i := 0; i < t.NumField(); i++ {
+					sf := t.Field(i)
+					vals := table[sf.Name]
+					idx := (k + i) % len(vals)
+					if k >= 9 {
+						idx = rng.IntN(len(vals))
+					}
+					f := v.Field(i)
+					if vals[idx] != nil {
+						f.Set(reflect.ValueOf(vals[idx]))
+					}
+					desc += fmt.Sprintf(" %s#%d", sf.Name, idx)
+					tag, _ := sf.Tag.Lookup("json")
+					o, _ := c15ParseTag(sf.Name, tag)
+					zero := c15DocZero(f)
+					legacyEmpty := c15LegacyEmpty(f)
+					var enc []byte
+					var err error
+					if p := guard(func() { enc, err = json.Marshal(f.Interface(), opts...) }); p != nil || err != nil {
+						fail("zero grid: cannot marshal field %s: %v %v", sf.Name, p, err)
+					}
+					jsonEmpty := false
+					switch string(enc) {
+					case "null", `""`, "{}", "[]":
+						jsonEmpty = true
+					}
+					omit := ((o.Omitzero || ozf) && zero) || (o.Omitempty && legacy && legacyEmpty) || (o.Omitempty && !legacy && jsonEmpty)
+					if !omit {
+						want = append(want, sf.Name)
+					}
+					c.Hit(fmt.Sprintf("zerogrid/kind=%s docZero=%v goZero=%v", c15ZeroKind(sf.Type), zero, f.IsZero()))
+					// model inputs
+					vb := 0
+					set := func(b bool, bit int) {
+						if b {
+							vb |= bit
+						}
+					}
+					set(f.IsZero(), 1)
+					set(legacyEmpty, 2)
+					set(jsonEmpty, 4)
+					isNil := (f.Kind() == reflect.Interface || f.Kind() == reflect.Pointer) && f.IsNil()
+					elemNil := f.Kind() == reflect.Interface && !f.IsNil() && f.Elem().Kind() == reflect.Pointer && f.Elem().IsNil()
+					set(isNil, 8)
+					set(elemNil, 16)
+					if kd := c15ZeroKind(sf.Type); kd != "n" && !isNil && !elemNil {
+						set(zero, 32) // the method's own answer (no guard applies)
+					}
+					names = append(names, sf.Name)
+					modelVals = append(modelVals, vb)
+					lines = append(lines, fmt.Sprintf("fields omitz %d %d %s %d", c15OptBits(false, 0, false, o.Omitzero, o.Omitempty, false, false), fl, c15ZeroKind(sf.Type), vb))
+				}
+				for pass, arg := range []any{v.Addr().Interface(), v.Interface()} {
+					var b []byte
+					var err error
+					if p := guard(func() { b, err = json.Marshal(arg, opts...) }); p != nil {
+						c.Panic("Marshal", []byte(desc), p, nil)
+						continue
+					}
+					if err != nil {
+						c.Violate("zerogrid-marshal-error", "Marshal", []byte(desc), map[string]any{"err": fmt.Sprint(err)})
+						continue
+					}
+					ms, _ := c15Members(b)
+					var got []string
+					emitted := map[string]bool{}
+					for _, m := range ms {
+						got = append(got, m.Name)
+						emitted[m.Name] = true
+					}
+					c.Case(fmt.Sprintf("zerogrid %d %s", pass, desc), true)
+					if strings.Join(got, " ") != strings.Join(want, " ") {
+						c.Violate("omit-zero-method", "Marshal", []byte(desc), map[string]any{"got": got, "want": want, "byValue": pass == 1, "out": trunc(string(b), 500)})
+					}
+					if or != nil && pass == 0 {
+						for i, a := range or.Ask(lines) {
+							if (a == "0") != emitted[names[i]] {
+								c.Violate("corr-omitz", "Marshal", []byte(desc), map[string]any{"field": names[i], "line": lines[i], "modelOmits": a, "implEmits": emitted[names[i]]})
+							}
+						}
+					}
+					// documented equivalence: OmitZeroStructFields(true) = the `omitzero` tag on every field
+					if ozf && ti == 0 { // (with omitempty the option's reach into nested structs changes their emptiness: covered by the grid reference instead)
+						tw := reflect.New(c15ZeroGridTypes[ti+1]).Elem()
+						tw.Set(v.Convert(tw.Type()))
+						var b2 []byte
+						guard(func() { b2, _ = json.Marshal(tw.Addr().Interface(), jsonv1.OmitEmptyWithLegacySemantics(legacy)) })
+						// same members of THIS struct (the option, unlike the tags, also reaches nested structs, so values may differ)
+						ms2, _ := c15Members(b2)
+						var got2 []string
+						for _, m := range ms2 {
+							got2 = append(got2, m.Name)
+						}
+						if strings.Join(got, " ") != strings.Join(got2, " ") {
+							c.Violate("omitzero-option-vs-tag", "Marshal", []byte(desc), map[string]any{"withOption": trunc(string(b), 400), "withTags": trunc(string(b2), 400)})
+						}
+					}
+				}
+			}
+		}
+	}
+}
+
 // omitzero / omitempty / string: emitted iff the documented condition holds
 func c15CheckOmit(c *Ctx, rng *rand.Rand, cs *c15Case) {
 	rule := cs.rule
@@ -1643,7 +1838,12 @@ func c15CheckOmit(c *Ctx, rng *rand.Rand, cs *c15Case) {
 			switch st := rng.IntN(3); st {
 			case 1: // non-zero
 				c15SetNonZero(f, n, 0)
-			case 2: // empty but not zero, where the kind has such a value
+			case 2: // empty but not zero, where the kind has such a value; IsZero disagreeing with the zero Go value
+				if sv := c15SpecialValues(f.Type()); sv != nil && f.CanSet() {
+					f.Set(reflect.ValueOf(sv[rng.IntN(len(sv))]))
+					c.Hit("omit/iszero-method-value")
+					break
+				}
 				switch f.Kind() {
 				case reflect.Slice:
 					if f.CanSet() {
@@ -1660,7 +1860,7 @@ func c15CheckOmit(c *Ctx, rng *rand.Rand, cs *c15Case) {
 				}
 			}
 			// documented conditions
-			zero := f.IsZero()
+			zero := c15DocZero(f)
 			legacyEmpty := false
 			switch f.Kind() {
 			case reflect.Bool, reflect.Int, reflect.Int8, reflect.Int16, reflect.Int32, reflect.Int64, reflect.Uint, reflect.Uint8, reflect.Uint16, reflect.Uint32, reflect.Uint64,
@@ -1842,6 +2042,7 @@ func c15Static(c *Ctx) {
 			}
 		}
 	}
+	c15ZeroGrid(c, or, rng)
 	// tag parser: parseFieldOptions vs the independent parser, generated and mutated tags
 	frag := []string{"", "a", "A_b", "name", "x y", "é", "-", "omitzero", "omitempty", "string", "embed", "case:ignore", "case:strict", "case", "case:x", "format:x", "format:'a b'",
 		"format:''", "format", "unknown", "omitEmpty", "omit_zero", "String", "CASE", "a:b", "1x", "_x", "x1", " ", "fo.o", "\"q", "q\\", "`"}
